@@ -105,3 +105,10 @@ reg("C12", "extra", fn="check_crossmemb")
 reg("C07", "extra", fn="check_lenarms", configs=("default", "utf16"))
 reg("C07", "extra", fn="check_asciibitmap")
 reg("C12", "extra", fn="check_charsetpad")
+reg("C06", "extra", fn="check_asciiguard")
+reg("C03", "extra", fn="check_asciiguard")
+reg("C06", "extra", fn="check_iterbudget")
+reg("C10", "tables", fn="check_stride")
+reg("C03", "extra", fn="check_keeplive")
+reg("C01", "extra", fn="check_keeplive")
+reg("C09", "plumb", configs=("utf16",))
